@@ -4,6 +4,16 @@ import json, os
 
 T = "Trusts the instrumenter's rewrite rules, Go 1.26.8 synctest, the simulated transport (reliable stream, non-blocking writes) and the harness' own RFC-derived codec and predicates."
 CLAIMED = {
+ "C01": ("deterministic simulation: multi-peer chaos workload (collisions, per-connection deviations, churn, stalls), incremental callback automaton with task attribution",
+         "Seeded exploration of interleavings of remote connects, dials, OPEN/KEEPALIVE/UPDATE/NOTIFICATION arrivals, FIN/RST, timer expiries, stall faults and AddPeer/DeletePeer/Close over the real peer manager, FSMs, readers and keepalive managers; after every event a per-plugin automaton (Down/InEstablished/Up/InHandler/InClose) with task and connection attribution, GetCapabilities-per-OPEN accounting and OnOpenMessage-per-connection accounting is checked, and at DeletePeer/Close return every OnEstablished must have its OnClose.", T, "DESIGN.md 4 C01"),
+ "C03": ("deterministic simulation: tagged UPDATE/KEEPALIVE sequences cut into adversarial TCP segments, delivered-vs-sent sequence oracle, handler variants",
+         "Seeded exploration of message sequences x segmentations x reader/FSM/handler schedules (incl. handler stalls in virtual time, WriteUpdate inside the handler, handler-returned NOTIFICATION): delivered bodies must equal the sent sequence (exact while the session lives), lie inside the OnEstablished..OnClose window, never be modified afterwards or alias each other; a handler NOTIFICATION must appear verbatim and end the session.", T, "DESIGN.md 4 C03"),
+ "C04": ("deterministic simulation: concurrent writer tasks vs keepalive timers vs teardown/re-establishment, strict frame parser and per-connection multiset/order accounting of WriteUpdate calls",
+         "Seeded exploration of writer interleavings (0-4 writer tasks per session, calls inside OnEstablished and the handler, stale handles after FIN/RST/hold expiry/handler NOTIFICATION/Close, re-established sessions) with a schedule point before every transport write: every outbound stream must parse as whole well-formed messages, every nil-returning WriteUpdate appears exactly once on its own session's connection in per-writer order, no UPDATE appears from nowhere or on another connection, calls after OnClose began fail, no call blocks in virtual time.", T, "DESIGN.md 4 C04"),
+ "C06": ("deterministic simulation in virtual time: hold-time grid x remote traffic patterns x local write patterns, wire timestamps vs min(local, remote)",
+         "Seeded exploration over the hold-time grid (0, 3..65535 s - an 18-hour hold time costs microseconds) x stage (OpenConfirm/Established) x remote cadence (H/3, H-eps, H+eps, random, last message just before expiry) x local WriteUpdate pattern with zero-time CPU: the OPEN carries the configured hold time, Hold Timer Expired is never sent earlier than H after the last received message and is sent within H+1 s of silence, gaps between sent KEEPALIVE/UPDATE never exceed H/3+1 s, and with H=0 a 24 h silence changes nothing and UPDATEs still flow.", T, "DESIGN.md 4 C06"),
+ "C07": ("deterministic simulation: both connections driven to the collision by a scripted remote in every arrival order, dominance oracle on which connection gets Cease/EOF; kill-vs-transition race forced by the schedule",
+         "Seeded exploration of (identifier order, AS order) x which connection reaches OpenConfirm second (sequential, concurrent) x the race between the peer manager's kill and the victim's own Established request x the four 'one Established first' cases, under adversarial goroutine schedules in every reaction window: exactly the connection initiated by the dominant speaker survives, the loser's last message is a Cease, the survivor is untouched and becomes Established on the remote's KEEPALIVE. All dominance x order cells are counted as probes and are non-zero.", T, "DESIGN.md 4 C07"),
  "C02": ("deterministic simulation: grammar-generated and mutated OPEN bodies against a quiescent OpenSent FSM, independent acceptability predicate as oracle",
          "Seeded exploration of OPEN bodies x configurations x directions x TCP segmentations x goroutine schedules through the real reader/FSM/plugin path; the reaction on the wire (KEEPALIVE vs. exactly one applicable NOTIFICATION then close), OnOpenMessage arguments and OnEstablished are compared with a predicate written from the property statement. Boundary values of every field and every structural corruption class are hit many times per run (see probes); the input space is sampled, not enumerated.", T, "DESIGN.md 4 C02"),
  "C08": ("deterministic simulation: faulty headers (every marker octet, boundary lengths, unknown types) after k good messages in every state, adversarial segmentation; plugin-returned NOTIFICATION fidelity",
